@@ -52,11 +52,11 @@ def _replay(item):
     resync = 0
     for i, st in enumerate(beh['path']):
         o = w.request(st['req'])
-        if o['cache'] != st['cache']:
+        if o['cache'] != st['cache'] or o['rerr'] != st['rerr']:
             # the deviating step is the last step of another behaviour and is reported there;
             # here the state is put right by internal assignment so that this state is not lost
             resync += 1
-            if not w.force_cache(st['cache']):
+            if not w.force_cache(st['cache'], st['rerr']):
                 return {'clauses': ['setup'], 'step': i, 'req': st['req'], 'expected': st['cache'],
                         'observed': w.cache(), 'before': {}}
     before = w.cache()
